@@ -224,7 +224,7 @@ def sel_block(fn):
             out = []
             for s in w.body:
                 out.append(s)
-                if isinstance(s, ast.Expr) and "fix_bitshift" in ast.unparse(s):
+                if "fix_bitshift(" in ast.unparse(s):        # the call itself, or a statement of this level that contains it
                     return out
     return []
 
